@@ -1,4 +1,5 @@
 import TrionModel.Model.Tridas
+import TrionModel.Model.TridasCodec
 import TrionModel.Driver.Util
 /-! Line protocol for the `tridas` model.
 
@@ -7,8 +8,8 @@ returned an instruction of `size` bytes described by `desc` (everything `get_bra
 `add:<dst>` `mov:<dst>` `sub:<dst>` `pop:<bits>` `b:<cond>:<off>` `bl:<off>` `bx` `bkpt` `udf` `udfw` `o`;
 positions not listed do not decode (the `unwrap()` panics there).
 → the listing as line tokens `H` `B` `L<addr hex8>` `I<addr hex8>`, then `|` and the branch set, or `PANIC <site>`.
-(Until the decoder model is merged the decode results come from the harness; `getBranch`/`getReturns`, the traversal
-and the printing loop are the model's.)
+`tridas bin <hexbytes>` — the same with the decoder MODEL: `listing codecDecoder` (`Model/TridasCodec.lean`, `Codec.decode`)
+on the bytes themselves; the harness requires both replies to be equal.
 -/
 namespace Trion.Driver.Tridas
 open Trion Trion.Driver Trion.Tridas
@@ -66,6 +67,15 @@ def handle : List String → String
         " ".intercalate ((Line.header :: render st.branches st.instrs false BASE).map showLine) ++ " | " ++
           " ".intercalate (st.branches.map (toHex 8))
     | _, _ => "bad-op"
+  | ["bin", h] =>
+    match parseHexBytes h with
+    | some bs =>
+      match traverse codecDecoder (bs.map (·.toUInt8)) with
+      | .error p => "PANIC " ++ showPanic p
+      | .ok st =>
+        " ".intercalate ((Line.header :: render st.branches st.instrs false BASE).map showLine) ++ " | " ++
+          " ".intercalate (st.branches.map (toHex 8))
+    | none => "bad-op"
   | _ => "bad-op"
 
 end Trion.Driver.Tridas
